@@ -17,22 +17,33 @@ transaction — no bound.  The only assumptions are
 * `typeOf ms = some τ`: the fragment is well typed with the type the library assigns
   (`Model/TypeCheck.lean`, tied to `Miniscript::ty` by the C05 tables and the C06 run).
 
-Proved here (T = DESIGN.md numbering):
-* `frame`                 — every fragment (typed or not) ignores what lies below the part of the
-                            stack it reaches, errors included                        (tool for T1)
-* `zero_arg`, `one_arg`   — `z` / `o`: consumes exactly 0 / 1 elements, on every stack, errors
-                            included; result has exactly the size the base promises       (T1)
-* `base_B/V/K/W`          — stack shape per base type, alt stack restored                 (T5)
-* `verify_leaves_nothing` — V never leaves a value                                        (T5)
-* `key_on_top`            — K leaves the key on top                                       (T5)
-* `unit_B`, `unit_W`      — `u`: a true result is exactly `[1]`                           (T2)
-* `nonzero_B/V/K`         — `n`: never satisfied when the top input is the empty vector   (T1)
-* `signed_B/V/K/W`        — `s`: when no signature verifies, never satisfied              (T4)
-* `forced_B/K/W`          — `f`: when no signature verifies, never dissatisfied           (T4)
-Not proved (tested on every run by the `J typeexec` judge): `d`, and the finer stack-wise
-reading of `s`/`f`; their full statements are the `def …_full : Prop` at the end of this file.
+Proved here (T = DESIGN.md numbering), with the hypotheses each group needs BEYOND the three above:
+* `frame`                  — every fragment (typed or not) ignores what lies below the part of the
+                             stack it reaches, errors included                                  (—)
+* `zero_arg`, `one_arg`    — `z` / `o`: consumes exactly 0 / 1 elements, on every stack, errors
+                             included; result has exactly the size the base promises    (T1; —)
+* `nonzero_B/V/K`          — `n`: never satisfied when the top input is the empty vector
+                             (T1; `wfK`: multi-family thresholds ≥ 1)
+* `base_B/V/K/W`, `base_B_length`, `verify_leaves_nothing`, `key_on_top`
+                           — stack shape per base type with the number of removed elements
+                             bounded by `maxArgs ms` (computed from the AST) and by the stack
+                             depth; alt stack restored                                  (T5; —)
+* `unit_B`, `unit_W`       — `u`: a true result is exactly `[1]`                         (T2; —)
+  ALL OF THE ABOVE: every stack, every environment (oracle, hashes, transaction, flags).
+* `signed_*_stackwise`, `signed_B_needs_signature`
+                           — `s`: on an input holding no valid signature never satisfied
+                             (T4; `wfS`, `OracleSane`: script-generated values are not signatures)
+* `forced_*_stackwise`, `forced_B_dissat_needs_signature`
+                           — `f`: on an input holding no valid signature never dissatisfied
+                             (T4; `wfS`, `wfT`, `OracleSane`); `forced_for_all_oracles_false`:
+                             the reading "never dissatisfied on ANY stack" is false
+* `signed_B/V/K/W`, `forced_B/K/W` — the same for the oracle that accepts nothing (`NoSig`)
+* `dissatisfiable`, `dissatisfiable_B`, `dissatisfiable_B_run`
+                           — `d`: a witness computed without any asset dissatisfies the fragment
+                             under every signature oracle (T3; the C01/C02/C07 side conditions)
+* `zero_arg_run`, `one_arg_run`, `base_B_run`, `dissatisfiable_B_run` — on `Script.run (encode ms)`
 -/
-import MsVerif.Lemmas.TypeSoundForced
+import MsVerif.Lemmas.TypeSoundDissat
 import MsVerif.Thm.Bridge
 
 namespace MsVerif.C06
@@ -109,23 +120,37 @@ theorem one_arg_no_underflow {env : Env} (hlim : env.flags.stackLimits = false) 
 
 /-! ## Base types: the stack shape the composition rules assume -/
 
-/-- T5 `B`: a successful B fragment restores the alt stack and replaces some number `n` of
-input elements by exactly one result `v`. -/
+/-- T5 `B`: a successful B fragment restores the alt stack, removes EXACTLY `n` input elements and
+pushes exactly one result `v`, where `n` is at most `maxArgs ms` (a bound computed from the AST)
+and at most the stack depth — so `c'.stack.length + n = c.stack.length + 1`. -/
 theorem base_B {env : Env} (hlim : env.flags.stackLimits = false) (ke : KeyEnv) (ctx : Ctx)
     {ms : Ms} {τ : Ty} (hwf : wf ms = true) (hty : typeOf ms = some τ) (hb : τ.corr.base = .B)
     {c c' : Core} (hrun : frag env ke ctx ms c = .ok c') :
-    c'.alt = c.alt ∧ ∃ v n, c'.stack = v :: c.stack.drop n := by
-  obtain ⟨ha, hp⟩ := shape hlim ke ctx ms hwf τ hty c c' hrun
-  obtain ⟨v, n, e, _⟩ := (Post.B hb).1 hp
-  exact ⟨ha, v, n, e⟩
+    c'.alt = c.alt ∧ ∃ v n, n ≤ maxArgs ms ∧ n ≤ c.stack.length ∧ c'.stack = v :: c.stack.drop n := by
+  obtain ⟨ha, hp⟩ := shapeN hlim ke ctx ms hwf τ hty c c' hrun
+  obtain ⟨v, n, hn, e, _⟩ := (PostN.B hb).1 hp
+  exact ⟨ha, v, min n c.stack.length, Nat.le_trans (Nat.min_le_left _ _) hn, Nat.min_le_right _ _,
+    by rw [e, drop_min]⟩
 
-/-- T5 `V`: a successful V fragment restores the alt stack and only removes input elements. -/
+/-- the length form of `base_B`: one element pushed, at most `maxArgs ms` popped -/
+theorem base_B_length {env : Env} (hlim : env.flags.stackLimits = false) (ke : KeyEnv) (ctx : Ctx)
+    {ms : Ms} {τ : Ty} (hwf : wf ms = true) (hty : typeOf ms = some τ) (hb : τ.corr.base = .B)
+    {c c' : Core} (hrun : frag env ke ctx ms c = .ok c') :
+    c.stack.length + 1 ≤ c'.stack.length + maxArgs ms ∧ c'.stack.length ≤ c.stack.length + 1 := by
+  obtain ⟨_, v, n, hn, hl, e⟩ := base_B hlim ke ctx hwf hty hb hrun
+  rw [e, List.length_cons, List.length_drop]
+  omega
+
+/-- T5 `V`: a successful V fragment restores the alt stack and removes exactly `n ≤ maxArgs ms`
+input elements, pushing nothing. -/
 theorem base_V {env : Env} (hlim : env.flags.stackLimits = false) (ke : KeyEnv) (ctx : Ctx)
     {ms : Ms} {τ : Ty} (hwf : wf ms = true) (hty : typeOf ms = some τ) (hb : τ.corr.base = .V)
     {c c' : Core} (hrun : frag env ke ctx ms c = .ok c') :
-    c'.alt = c.alt ∧ ∃ n, c'.stack = c.stack.drop n := by
-  obtain ⟨ha, hp⟩ := shape hlim ke ctx ms hwf τ hty c c' hrun
-  exact ⟨ha, (Post.V hb).1 hp⟩
+    c'.alt = c.alt ∧ ∃ n, n ≤ maxArgs ms ∧ n ≤ c.stack.length ∧ c'.stack = c.stack.drop n := by
+  obtain ⟨ha, hp⟩ := shapeN hlim ke ctx ms hwf τ hty c c' hrun
+  obtain ⟨n, hn, e⟩ := (PostN.V hb).1 hp
+  exact ⟨ha, min n c.stack.length, Nat.le_trans (Nat.min_le_left _ _) hn, Nat.min_le_right _ _,
+    by rw [e, drop_min]⟩
 
 /-- T5: "V never leaves a value" — whatever a V fragment leaves was already there, in the same
 order (it continues or aborts; it can never leave `false`). -/
@@ -133,7 +158,7 @@ theorem verify_leaves_nothing {env : Env} (hlim : env.flags.stackLimits = false)
     {ms : Ms} {τ : Ty} (hwf : wf ms = true) (hty : typeOf ms = some τ) (hb : τ.corr.base = .V)
     {c c' : Core} (hrun : frag env ke ctx ms c = .ok c') :
     c'.stack.length ≤ c.stack.length ∧ c'.stack = c.stack.drop (c.stack.length - c'.stack.length) := by
-  obtain ⟨_, n, e⟩ := base_V hlim ke ctx hwf hty hb hrun
+  obtain ⟨_, n, _, _, e⟩ := base_V hlim ke ctx hwf hty hb hrun
   have hl : c'.stack.length = c.stack.length - n := by rw [e, List.length_drop]
   refine ⟨by omega, ?_⟩
   by_cases hn : n ≤ c.stack.length
@@ -141,14 +166,16 @@ theorem verify_leaves_nothing {env : Env} (hlim : env.flags.stackLimits = false)
   · have h0 : c'.stack = [] := by rw [e, List.drop_eq_nil_of_le (by omega)]
     rw [h0, List.length_nil, Nat.sub_zero, List.drop_eq_nil_of_le (Nat.le_refl _)]
 
-/-- T5 `K`: a successful K fragment restores the alt stack and leaves one element on top of a
-suffix of its input. -/
+/-- T5 `K`: a successful K fragment restores the alt stack, removes exactly `n ≤ maxArgs ms` input
+elements and pushes exactly one element (the key, see `key_on_top`). -/
 theorem base_K {env : Env} (hlim : env.flags.stackLimits = false) (ke : KeyEnv) (ctx : Ctx)
     {ms : Ms} {τ : Ty} (hwf : wf ms = true) (hty : typeOf ms = some τ) (hb : τ.corr.base = .K)
     {c c' : Core} (hrun : frag env ke ctx ms c = .ok c') :
-    c'.alt = c.alt ∧ ∃ k n, c'.stack = k :: c.stack.drop n := by
-  obtain ⟨ha, hp⟩ := shape hlim ke ctx ms hwf τ hty c c' hrun
-  exact ⟨ha, (Post.K hb).1 hp⟩
+    c'.alt = c.alt ∧ ∃ k n, n ≤ maxArgs ms ∧ n ≤ c.stack.length ∧ c'.stack = k :: c.stack.drop n := by
+  obtain ⟨ha, hp⟩ := shapeN hlim ke ctx ms hwf τ hty c c' hrun
+  obtain ⟨k, n, hn, e⟩ := (PostN.K hb).1 hp
+  exact ⟨ha, k, min n c.stack.length, Nat.le_trans (Nat.min_le_left _ _) hn, Nat.min_le_right _ _,
+    by rw [e, drop_min]⟩
 
 /-- T5 `K`: the element a K fragment leaves on top is the key: the serialisation named by a
 `pk_k`, or an element whose HASH160 is the hash committed by a `pk_h` of the fragment. -/
@@ -159,16 +186,17 @@ theorem key_on_top {env : Env} (ke : KeyEnv) (ctx : Ctx)
   key_top ke ctx ms τ hty hb c c' hrun
 
 /-- T5 `W`: a successful W fragment restores the alt stack, needs an element `x` on top, removes
-some number `n` of elements below `x` and leaves exactly `x` and one result `v`, in either
+exactly `n ≤ maxArgs ms` elements below `x` and leaves exactly `x` and one result `v`, in either
 order (`a:` leaves `x` on top, `s:` below) — what `BOOLAND`/`BOOLOR`/`ADD` consume. -/
 theorem base_W {env : Env} (hlim : env.flags.stackLimits = false) (ke : KeyEnv) (ctx : Ctx)
     {ms : Ms} {τ : Ty} (hwf : wf ms = true) (hty : typeOf ms = some τ) (hb : τ.corr.base = .W)
     {c c' : Core} (hrun : frag env ke ctx ms c = .ok c') :
-    c'.alt = c.alt ∧ ∃ x tl v n, c.stack = x :: tl ∧
+    c'.alt = c.alt ∧ ∃ x tl v n, n ≤ maxArgs ms ∧ n ≤ tl.length ∧ c.stack = x :: tl ∧
       (c'.stack = x :: v :: tl.drop n ∨ c'.stack = v :: x :: tl.drop n) := by
-  obtain ⟨ha, hp⟩ := shape hlim ke ctx ms hwf τ hty c c' hrun
-  obtain ⟨x, tl, v, n, e1, e2, _⟩ := (Post.W hb).1 hp
-  exact ⟨ha, x, tl, v, n, e1, e2⟩
+  obtain ⟨ha, hp⟩ := shapeN hlim ke ctx ms hwf τ hty c c' hrun
+  obtain ⟨x, tl, v, n, hn, e1, e2, _⟩ := (PostN.W hb).1 hp
+  refine ⟨ha, x, tl, v, min n tl.length, Nat.le_trans (Nat.min_le_left _ _) hn, Nat.min_le_right _ _, e1, ?_⟩
+  rw [← drop_min]; exact e2
 
 /-! ## `u`: a true result is exactly 1 -/
 
@@ -303,6 +331,283 @@ theorem forced_W {env : Env} (hlim : env.flags.stackLimits = false) (hns : NoSig
     ∃ v r, (c'.stack = x :: v :: r ∨ c'.stack = v :: x :: r) ∧ castToBool v = true :=
   (ForcedS.W hb).1 (forced hlim hns ke ctx ms hwf hws hwt τ hty hd c c' hrun) x tl hst
 
+/-! ## `s` and `f`, stack-wise: for EVERY sane oracle, on stacks without a valid signature
+
+`Clean env v`: `v` verifies under no key.  `AllClean env c`: every element of the main and the alt
+stack of `c` is clean — "the input contains no valid signature".  `OracleSane env ke`: no value
+the script generates by itself (`Gen`: script numbers, booleans, its key / key-hash / hash
+constants, hash outputs) is a valid signature — without it a `CHECKSIG` could accept e.g. the
+number a previous fragment left, and the letters `s`/`f` would say nothing about inputs.
+`same_frag` (Lemmas/TypeSoundClean.lean) shows that such a run IS, step by step, the run under
+the oracle that accepts nothing, which is how the `NoSig` theorems transfer. -/
+
+/-- T4 `s`, the property's meaning: on an input without a valid signature a signed B fragment is
+never satisfied — for every sane oracle. -/
+theorem signed_B_stackwise {env : Env} (hlim : env.flags.stackLimits = false) {ke : KeyEnv}
+    (hso : OracleSane env ke) (ctx : Ctx) {ms : Ms} {τ : Ty} (hwf : wf ms = true) (hws : wfS ms = true)
+    (hty : typeOf ms = some τ) (hb : τ.corr.base = .B) (hs : τ.mall.signed = true) {c c' : Core}
+    (hclean : AllClean env c) (hrun : frag env ke ctx ms c = .ok c') {v : Bytes} {r : List Bytes}
+    (hst : c'.stack = v :: r) : castToBool v = false :=
+  (UnsatS.B hb).1 (signed_clean hlim hso ctx ms hwf hws τ hty hs c c' hclean hrun) v r hst
+
+/-- the same read forwards: every execution that SATISFIES a signed B fragment started from a
+state holding at least one element that is a valid signature for some key. -/
+theorem signed_B_needs_signature {env : Env} (hlim : env.flags.stackLimits = false) {ke : KeyEnv}
+    (hso : OracleSane env ke) (ctx : Ctx) {ms : Ms} {τ : Ty} (hwf : wf ms = true) (hws : wfS ms = true)
+    (hty : typeOf ms = some τ) (hb : τ.corr.base = .B) (hs : τ.mall.signed = true) {c c' : Core}
+    (hrun : frag env ke ctx ms c = .ok c') {v : Bytes} {r : List Bytes}
+    (hst : c'.stack = v :: r) (hsat : castToBool v = true) :
+    ∃ e, (e ∈ c.stack ∨ e ∈ c.alt) ∧ ∃ pk, env.sigOk pk e = true := by
+  apply Classical.byContradiction
+  intro hne
+  have hclean : AllClean env c := by
+    constructor
+    · intro e he pk
+      cases hsk : env.sigOk pk e with
+      | false => rfl
+      | true => exact (hne ⟨e, Or.inl he, pk, hsk⟩).elim
+    · intro e he pk
+      cases hsk : env.sigOk pk e with
+      | false => rfl
+      | true => exact (hne ⟨e, Or.inr he, pk, hsk⟩).elim
+  have := signed_B_stackwise hlim hso ctx hwf hws hty hb hs hclean hrun hst
+  rw [hsat] at this
+  cases this
+
+/-- T4 `s` for V, stack-wise: without a valid signature in the input a signed V fragment aborts. -/
+theorem signed_V_stackwise {env : Env} (hlim : env.flags.stackLimits = false) {ke : KeyEnv}
+    (hso : OracleSane env ke) (ctx : Ctx) {ms : Ms} {τ : Ty} (hwf : wf ms = true) (hws : wfS ms = true)
+    (hty : typeOf ms = some τ) (hb : τ.corr.base = .V) (hs : τ.mall.signed = true) {c : Core}
+    (hclean : AllClean env c) : ∃ e, frag env ke ctx ms c = .error e := by
+  cases hr : frag env ke ctx ms c with
+  | error e => exact ⟨e, rfl⟩
+  | ok c' => exact ((UnsatS.V hb).1 (signed_clean hlim hso ctx ms hwf hws τ hty hs c c' hclean hr)).elim
+
+/-- T4 `s` for W, stack-wise -/
+theorem signed_W_stackwise {env : Env} (hlim : env.flags.stackLimits = false) {ke : KeyEnv}
+    (hso : OracleSane env ke) (ctx : Ctx) {ms : Ms} {τ : Ty} (hwf : wf ms = true) (hws : wfS ms = true)
+    (hty : typeOf ms = some τ) (hb : τ.corr.base = .W) (hs : τ.mall.signed = true) {c c' : Core}
+    (hclean : AllClean env c) (hrun : frag env ke ctx ms c = .ok c') {x : Bytes} {tl : List Bytes}
+    (hst : c.stack = x :: tl) :
+    ∃ v r, (c'.stack = x :: v :: r ∨ c'.stack = v :: x :: r) ∧ castToBool v = false :=
+  (UnsatS.W hb).1 (signed_clean hlim hso ctx ms hwf hws τ hty hs c c' hclean hrun) x tl hst
+
+/-- T4 `f`, the property's meaning ("a forced fragment cannot be made to leave 0 without a
+signature"): on an input without a valid signature a forced B fragment that completes leaves a
+TRUE value — for every sane oracle. -/
+theorem forced_B_stackwise {env : Env} (hlim : env.flags.stackLimits = false) {ke : KeyEnv}
+    (hso : OracleSane env ke) (ctx : Ctx) {ms : Ms} {τ : Ty} (hwf : wf ms = true) (hws : wfS ms = true)
+    (hwt : wfT ms = true) (hty : typeOf ms = some τ) (hb : τ.corr.base = .B) (hd : τ.mall.dissat = .none)
+    {c c' : Core} (hclean : AllClean env c) (hrun : frag env ke ctx ms c = .ok c') {v : Bytes}
+    {r : List Bytes} (hst : c'.stack = v :: r) : castToBool v = true :=
+  (ForcedS.B hb).1 (forced_clean hlim hso ctx ms hwf hws hwt τ hty hd c c' hclean hrun) v r hst
+
+/-- the same read forwards: an execution that DISSATISFIES a forced B fragment (completes with a
+false value) consumed a state holding a valid signature. -/
+theorem forced_B_dissat_needs_signature {env : Env} (hlim : env.flags.stackLimits = false) {ke : KeyEnv}
+    (hso : OracleSane env ke) (ctx : Ctx) {ms : Ms} {τ : Ty} (hwf : wf ms = true) (hws : wfS ms = true)
+    (hwt : wfT ms = true) (hty : typeOf ms = some τ) (hb : τ.corr.base = .B) (hd : τ.mall.dissat = .none)
+    {c c' : Core} (hrun : frag env ke ctx ms c = .ok c') {v : Bytes} {r : List Bytes}
+    (hst : c'.stack = v :: r) (hdis : castToBool v = false) :
+    ∃ e, (e ∈ c.stack ∨ e ∈ c.alt) ∧ ∃ pk, env.sigOk pk e = true := by
+  apply Classical.byContradiction
+  intro hne
+  have hclean : AllClean env c := by
+    constructor
+    · intro e he pk
+      cases hsk : env.sigOk pk e with
+      | false => rfl
+      | true => exact (hne ⟨e, Or.inl he, pk, hsk⟩).elim
+    · intro e he pk
+      cases hsk : env.sigOk pk e with
+      | false => rfl
+      | true => exact (hne ⟨e, Or.inr he, pk, hsk⟩).elim
+  have := forced_B_stackwise hlim hso ctx hwf hws hwt hty hb hd hclean hrun hst
+  rw [hdis] at this
+  cases this
+
+/-- T4 `f` for K / W, stack-wise -/
+theorem forced_K_stackwise {env : Env} (hlim : env.flags.stackLimits = false) {ke : KeyEnv}
+    (hso : OracleSane env ke) (ctx : Ctx) {ms : Ms} {τ : Ty} (hwf : wf ms = true) (hws : wfS ms = true)
+    (hwt : wfT ms = true) (hty : typeOf ms = some τ) (hb : τ.corr.base = .K) (hd : τ.mall.dissat = .none)
+    {c : Core} (hclean : AllClean env c) : ∃ e, frag env ke ctx ms c = .error e := by
+  cases hr : frag env ke ctx ms c with
+  | error e => exact ⟨e, rfl⟩
+  | ok c' => exact ((ForcedS.K hb).1 (forced_clean hlim hso ctx ms hwf hws hwt τ hty hd c c' hclean hr)).elim
+
+theorem forced_W_stackwise {env : Env} (hlim : env.flags.stackLimits = false) {ke : KeyEnv}
+    (hso : OracleSane env ke) (ctx : Ctx) {ms : Ms} {τ : Ty} (hwf : wf ms = true) (hws : wfS ms = true)
+    (hwt : wfT ms = true) (hty : typeOf ms = some τ) (hb : τ.corr.base = .W) (hd : τ.mall.dissat = .none)
+    {c c' : Core} (hclean : AllClean env c) (hrun : frag env ke ctx ms c = .ok c') {x : Bytes}
+    {tl : List Bytes} (hst : c.stack = x :: tl) :
+    ∃ v r, (c'.stack = x :: v :: r ∨ c'.stack = v :: x :: r) ∧ castToBool v = true :=
+  (ForcedS.W hb).1 (forced_clean hlim hso ctx ms hwf hws hwt τ hty hd c c' hclean hrun) x tl hst
+
+/-! ### non-vacuity of the stack-wise hypotheses -/
+
+/-- the toy world `Toy` (Lemmas/TypeSoundDissat.lean) with an oracle that accepts exactly one 64-byte string -/
+def saneEnv : Env := { Toy.env 0 0 with sigOk := fun _ sg => sg == List.replicate 64 0x11 }
+
+/-- `OracleSane` is satisfiable: numbers are at most 10 bytes long, the toy keys 33, and the toy
+hash outputs end in the byte 7 -/
+theorem saneEnv_sane : OracleSane saneEnv Toy.ke := by
+  intro v hg pk
+  show (v == List.replicate 64 0x11) = false
+  cases hg with
+  | num n => exact ne_of_length (by have := numEncode_length n; simp only [List.length_replicate]; omega)
+  | small n => exact ne_of_length (by split <;> simp)
+  | bool b => exact ne_of_length (by cases b <;> simp [boolBytes])
+  | ser k => exact ne_of_length (by simp [Toy.ke, Toy.ser])
+  | pkh k => exact ne_of_last
+  | rawPkh h => exact ne_of_last
+  | hashVal kind h => exact ne_of_last
+  | hash op a => exact ne_of_last
+
+/-- a state without a valid signature (the oracle of `saneEnv` is not the toy one of Thm/C01) -/
+theorem exClean : AllClean saneEnv ⟨[[1], Toy.ser 0 ++ [1]], [[2]], 0⟩ := by
+  constructor <;> intro e he pk <;> simp at he <;> (try rcases he with rfl | rfl) <;> (try subst he) <;>
+    exact ne_of_length (by simp [Toy.ser])
+
+/-- `signed_B_stackwise` instantiated on `and_v(v:pk(K0),after(100))` (signed, with a lock) -/
+example (c' : Core) (v : Bytes) (r : List Bytes)
+    (h : frag saneEnv Toy.ke .segwitv0 (.andV (.verify (.check (.pkK 0))) (.after 100))
+      ⟨[[1], Toy.ser 0 ++ [1]], [[2]], 0⟩ = .ok c') (hst : c'.stack = v :: r) : castToBool v = false :=
+  signed_B_stackwise (τ := ⟨⟨.B, .oneNonZero, false, false⟩, ⟨.none, true, true⟩⟩) rfl saneEnv_sane .segwitv0
+    (by decide) (by decide) (by decide) rfl rfl exClean h hst
+
+/-! ### `f` is NOT "cannot be dissatisfied on any stack"
+
+`Dissat::None` means that every dissatisfaction involves a signature, not that there is none:
+`and_b(and_v(v:pk(K0),1),a:0)` is typed `f` by the library (rule `and_b`: left child forced and
+signed), and WITH a valid signature for K0 it completes with the false value — satisfy the left
+child, dissatisfy the right one.  So the reading "for every oracle and every stack a forced
+fragment never ends dissatisfied" is false; `forced_B_stackwise` is the strongest true form. -/
+
+/-- `and_b(and_v(v:pk(K0),1),a:0)` -/
+def exForced : Ms := .andB (.andV (.verify (.check (.pkK 0))) .tru) (.alt .fls)
+
+example : wf exForced = true ∧ wfS exForced = true ∧ wfT exForced = true ∧
+    (typeOf exForced).map (fun t => (t.corr.base, t.mall.dissat)) = some (.B, .none) := by decide
+
+/-- in the toy world `Toy` (Lemmas/TypeSoundDissat.lean) (a signature is valid iff it is `key ++ [1]`), on the stack holding
+the valid signature for K0, the forced fragment completes and leaves the empty vector -/
+theorem forced_dissatisfied_with_signature :
+    ∃ c', frag (Toy.env 0 0) Toy.ke .segwitv0 exForced ⟨[Toy.ser 0 ++ [1]], [], 0⟩ = .ok c' ∧
+      c'.stack = [[]] :=
+  ⟨⟨[[]], [], 4⟩, by rfl, rfl⟩
+
+/-- the over-strong reading of `f` is refuted -/
+theorem forced_for_all_oracles_false :
+    ¬ (∀ (env : Env) (ke : KeyEnv) (ctx : Ctx) (ms : Ms) (τ : Ty) (c c' : Core) (v : Bytes) (r : List Bytes),
+        env.flags.stackLimits = false → wf ms = true → wfS ms = true → wfT ms = true → typeOf ms = some τ →
+        τ.corr.base = .B → τ.mall.dissat = .none → frag env ke ctx ms c = .ok c' → c'.stack = v :: r →
+        castToBool v = true) := by
+  intro h
+  obtain ⟨c', hr, hs⟩ := forced_dissatisfied_with_signature
+  have := h (Toy.env 0 0) Toy.ke .segwitv0 exForced _ _ c' [] [] rfl (by decide) (by decide) (by decide)
+    (by decide : typeOf exForced = some ⟨⟨.B, .anyNonZero, false, true⟩, ⟨.none, true, true⟩⟩) rfl rfl hr hs
+  simp [castToBool] at this
+
+/-! ## `d`: a dissatisfiable fragment has a signature-free input that dissatisfies it
+
+By composition of C07.`dissatisfiable_of_type`, C02.`mall_complete_table` and C01.`dissat_sound`
+(`Lemmas/TypeSoundDissat.lean`); their hypotheses are carried explicitly:
+`EnvOk env ctx` (limits off, tapscript rules iff the context is Tap), `Agrees env ke noAssets σ`
+(keys have the shape the context wants, `pk_h` commits to HASH160 of the key, 32 zero bytes are
+not a preimage of a committed hash, witness elements are shorter than 2³¹ bytes; NOTHING about
+signatures, because the caller holds none), `WF ctx ms` (`Threshold::new` / lock-time ranges /
+multi vs multi_a per context), `noRaw ms` (no raw pubkey hash: its key is not in the script),
+`ThreshKOK ms` (1 ≤ k ≤ n at every `thresh`), `SmallScript ms` (fewer than 2⁵⁵ witness items), and `LocksMet`: the locks the model REPORTS for
+this dissatisfaction are met by the transaction (the library reports none for a `d` fragment in
+non-malleable mode — C01.`dissat_clean_nonmall`; for the malleable-mode witness used here this
+is a hypothesis, discharged by evaluation in the example).
+
+The witness is the dissatisfaction the satisfier computes for a caller who holds NO signature,
+NO preimage and NO lock (`noCfg`), and the run reaches the dissatisfied shape under EVERY
+signature oracle `so` — in particular under the one that accepts nothing, for which the input
+trivially contains no valid signature. -/
+
+/-- T3 `d`, all base types (vocabulary of Spec/SatSpec.lean): there is a witness template `w`,
+computed without any asset, such that under every signature oracle the fragment run on the
+realised witness (above any `rest`, any alt stack, any opcode counter) leaves exactly the empty
+vector in place of the witness (B), the key over an empty signature (K), resp. the empty vector
+next to the untouched top element (W). -/
+theorem dissatisfiable {env : Env} {ke : KeyEnv} {ctx : Ctx} {σ : Ph → Bytes} {ms : Ms} {τ : Ty}
+    (henv : SatSpec.EnvOk env ctx) (hag : SatSpec.Agrees env ke noAssets σ) (hwf : SatSpec.WF ctx ms)
+    (hty : typeOf ms = some τ) (hraw : Lift.noRaw ms = true) (hk : C02.ThreshKOK ms) (hsm : C02.SmallScript ms)
+    (hd : τ.corr.dissat = true)
+    (hl : SatSpec.LocksMet env (satDissat (noCfg ke ctx) ms).dissat) :
+    ∃ w, (satDissat (noCfg ke ctx) ms).dissat.stack = .stack w ∧
+      ∀ so : Bytes → Bytes → Bool, SatSpec.DisRuns { env with sigOk := so } ke ctx σ τ.corr ms w := by
+  obtain ⟨w, hw⟩ := dissat_stack_of_type ke ctx ms τ hty hraw hk hsm hd
+  refine ⟨w, hw, fun so => ?_⟩
+  exact C01.dissat_sound (cfg := noCfg ke ctx) (env := { env with sigOk := so })
+    ⟨henv.opLimit, henv.stackLimits, henv.tap⟩ (agrees_oracle hag so) ms τ hwf hty w hw hl
+
+/-- T3 `d` for B, spelled out: a concrete input `inp` such that, under every signature oracle,
+`frag` on `inp ++ rest` completes, restores the alt stack and leaves exactly `[] :: rest`. -/
+theorem dissatisfiable_B {env : Env} {ke : KeyEnv} {ctx : Ctx} {σ : Ph → Bytes} {ms : Ms} {τ : Ty}
+    (henv : SatSpec.EnvOk env ctx) (hag : SatSpec.Agrees env ke noAssets σ) (hwf : SatSpec.WF ctx ms)
+    (hty : typeOf ms = some τ) (hraw : Lift.noRaw ms = true) (hk : C02.ThreshKOK ms) (hsm : C02.SmallScript ms)
+    (hb : τ.corr.base = .B) (hd : τ.corr.dissat = true)
+    (hl : SatSpec.LocksMet env (satDissat (noCfg ke ctx) ms).dissat) :
+    ∃ inp : List Bytes, ∀ (so : Bytes → Bytes → Bool) (rest alt : List Bytes) (ops : Nat),
+      ∃ c', frag { env with sigOk := so } ke ctx ms ⟨inp ++ rest, alt, ops⟩ = .ok c' ∧
+        c'.stack = [] :: rest ∧ c'.alt = alt := by
+  obtain ⟨w, _, hr⟩ := dissatisfiable henv hag hwf hty hraw hk hsm hd hl
+  exact ⟨SatSpec.stk σ w, fun so rest alt ops => (SatSpec.disRuns_B hb).mp (hr so) rest alt ops⟩
+
+/-- T3 `d` on real opcode execution, under the oracle that accepts nothing (so the input holds
+no valid signature): the flat interpreter runs the encoded script on `inp ++ rest` to
+`[] :: rest`. -/
+theorem dissatisfiable_B_run {env : Env} {ke : KeyEnv} {ctx : Ctx} {σ : Ph → Bytes} {ms : Ms} {τ : Ty}
+    (henv : SatSpec.EnvOk env ctx) (hag : SatSpec.Agrees env ke noAssets σ) (hwf : SatSpec.WF ctx ms)
+    (hty : typeOf ms = some τ) (hraw : Lift.noRaw ms = true) (hk : C02.ThreshKOK ms) (hsm : C02.SmallScript ms)
+    (hb : τ.corr.base = .B) (hd : τ.corr.dissat = true)
+    (hl : SatSpec.LocksMet env (satDissat (noCfg ke ctx) ms).dissat) :
+    ∃ inp : List Bytes, (∀ pk, ∀ sg ∈ inp, (noSigEnv env).sigOk pk sg = false) ∧
+      ∀ (rest alt : List Bytes) (ops : Nat) (cs : List Bool), cs.all id = true →
+        ∃ ops', run (noSigEnv env) (encode ke ctx ms) ⟨⟨inp ++ rest, alt, ops⟩, cs⟩
+          = .ok ⟨⟨[] :: rest, alt, ops'⟩, cs⟩ := by
+  obtain ⟨inp, h⟩ := dissatisfiable_B henv hag hwf hty hraw hk hsm hb hd hl
+  refine ⟨inp, fun _ _ _ => rfl, fun rest alt ops cs hcs => ?_⟩
+  obtain ⟨c', hr, hs, ha⟩ := h (fun _ _ => false) rest alt ops
+  have hb' := Bridge.exec_encode_eq_frag_nostack (noSigEnv env) ke ctx ms ⟨inp ++ rest, alt, ops⟩ cs hcs
+    henv.stackLimits
+  refine ⟨c'.ops, ?_⟩
+  rw [hb']
+  show (frag { env with sigOk := fun _ _ => false } ke ctx ms ⟨inp ++ rest, alt, ops⟩).map _ = _
+  rw [hr]
+  obtain ⟨s, a, o⟩ := c'
+  simp only at hs ha
+  subst hs; subst ha
+  rfl
+
+/-! ### non-vacuity of `d`: an `andor` over a lock, a hash and a 2-of-3 threshold, typed `d` -/
+
+/-- `andor(pk(K0), and_v(v:pk(K1),older(144)), thresh(2,pk(K2),s:pk(K3),a:sha256(H0)))` -/
+def exD : Ms :=
+  .andOr (Toy.pk 0) (.andV (.verify (Toy.pk 1)) (.older 144))
+    (.thresh 2 (.cons (Toy.pk 2) (.cons (.swap (Toy.pk 3)) (.cons (.alt (.hash .sha256 0)) .nil))))
+
+example : (typeOf exD).map (fun t => (t.corr.base, t.corr.dissat)) = some (.B, true) ∧
+    Lift.noRaw exD = true ∧ C02.ThreshKOK exD ∧ C02.SmallScript exD := by decide
+
+example : SatSpec.WF .segwitv0 exD := by simp [exD, Toy.pk, SatSpec.WF, SatSpec.WFs, MsList.length]
+
+/-- the witness the satisfier computes without assets: three empty vectors for the threshold
+children … and one for `pk(K0)`; no lock is reported -/
+example : (satDissat (noCfg Toy.ke .segwitv0) exD).dissat
+    = ⟨.stack [.hashDissat, .pushZero, .pushZero, .pushZero], false, none, none⟩ := by decide
+
+/-- all hypotheses of `dissatisfiable_B` hold in the toy world `Toy` (Lemmas/TypeSoundDissat.lean) -/
+example : ∃ inp : List Bytes, ∀ (so : Bytes → Bytes → Bool) (rest alt : List Bytes) (ops : Nat),
+    ∃ c', frag { Toy.env 0 0 with sigOk := so } Toy.ke .segwitv0 exD ⟨inp ++ rest, alt, ops⟩ = .ok c' ∧
+      c'.stack = [] :: rest ∧ c'.alt = alt :=
+  dissatisfiable_B (τ := ⟨⟨.B, .any, true, false⟩, ⟨.unknown, true, false⟩⟩) (Toy.envOk 0 0) (Toy.agrees 0 0 noAssets)
+    (by simp [exD, Toy.pk, SatSpec.WF, SatSpec.WFs, MsList.length]) (by decide) (by decide) (by decide) (by decide) rfl rfl
+    (by simp [SatSpec.LocksMet]; decide)
+
 /-! ## The same statements about real opcode execution (`Script.run` on `encode ms`)
 
 `Thm/Bridge.lean` proves `run env (encode ke ctx ms) ⟨c, cs⟩ = (frag env ke ctx ms c).map (⟨·, cs⟩)`
@@ -341,12 +646,12 @@ theorem base_B_run {env : Env} (hlim : env.flags.stackLimits = false) (ke : KeyE
     {ms : Ms} {τ : Ty} (hwf : wf ms = true) (hty : typeOf ms = some τ) (hb : τ.corr.base = .B)
     {c : Core} {cs : List Bool} (hcs : cs.all id = true) {s' : State}
     (hrun : run env (encode ke ctx ms) ⟨c, cs⟩ = .ok s') :
-    s'.conds = cs ∧ s'.core.alt = c.alt ∧ ∃ v n, s'.core.stack = v :: c.stack.drop n ∧
+    s'.conds = cs ∧ s'.core.alt = c.alt ∧ ∃ v n, n ≤ maxArgs ms ∧ s'.core.stack = v :: c.stack.drop n ∧
       (τ.corr.unit = true → castToBool v = true → v = [1]) := by
   obtain ⟨hc, hf⟩ := Bridge.run_encode_conds env ke ctx ms c cs s' hcs (.inr (.inl hlim))
     (fun h => by rw [hlim] at h; cases h) hrun
-  obtain ⟨ha, v, n, e⟩ := base_B hlim ke ctx hwf hty hb hf
-  exact ⟨hc, ha, v, n, e, fun hu hv => unit_B hlim ke ctx hwf hty hb hu hf e hv⟩
+  obtain ⟨ha, v, n, hn, _, e⟩ := base_B hlim ke ctx hwf hty hb hf
+  exact ⟨hc, ha, v, n, hn, e, fun hu hv => unit_B hlim ke ctx hwf hty hb hu hf e hv⟩
 
 /-! ## Non-vacuity: the hypotheses are satisfiable on concrete fragments -/
 
@@ -388,36 +693,9 @@ example : frag exEnv exKe .segwitv0 exZ ⟨[[0xAA]], [], 0⟩ = .ok ⟨[[1], [0x
 
 /-! ## What remains tested only
 
-`d` is not proved here (it is the dissatisfaction half of C01's satisfier soundness).  `s` and `f`
-are proved above for an oracle that accepts NO signature; the judge tests the finer reading
-"no element of the INPUT STACK verifies" (the oracle may accept other byte strings), which is
-stated here and left open — it needs a provenance invariant (script constants and computed
-values are never consumed as signatures) and is false for pathological oracles that accept a
-script constant as a signature. -/
-
-/-- an input "without a signature": no element of the stack verifies under any key -/
-def SigFree (env : Env) (stk : List Bytes) : Prop := ∀ pk, ∀ sg ∈ stk, env.sigOk pk sg = false
-
-/-- `d`: a dissatisfiable B fragment has a signature-free input on which it leaves exactly `[]` -/
-def dissatisfiable_full : Prop :=
-  ∀ (env : Env) (ke : KeyEnv) (ctx : Ctx) (ms : Ms) (τ : Ty), env.flags.stackLimits = false →
-    wf ms = true → typeOf ms = some τ → τ.corr.base = .B → τ.corr.dissat = true →
-    ∀ (rest alt : List Bytes) (ops : Nat), ∃ (inp : List Bytes) (c' : Core), SigFree env inp ∧
-      frag env ke ctx ms ⟨inp ++ rest, alt, ops⟩ = .ok c' ∧ c'.stack = [] :: rest
-
-/-- `s`, stack-wise reading -/
-def signed_stackwise_full : Prop :=
-  ∀ (env : Env) (ke : KeyEnv) (ctx : Ctx) (ms : Ms) (τ : Ty), env.flags.stackLimits = false →
-    wf ms = true → wfS ms = true → typeOf ms = some τ → τ.corr.base = .B → τ.mall.signed = true →
-    ∀ (stk alt : List Bytes) (ops : Nat) (c' : Core) (v : Bytes) (r : List Bytes), SigFree env stk →
-      frag env ke ctx ms ⟨stk, alt, ops⟩ = .ok c' → c'.stack = v :: r → castToBool v = false
-
-/-- `f`, stack-wise reading -/
-def forced_stackwise_full : Prop :=
-  ∀ (env : Env) (ke : KeyEnv) (ctx : Ctx) (ms : Ms) (τ : Ty), env.flags.stackLimits = false →
-    wf ms = true → wfS ms = true → wfT ms = true → typeOf ms = some τ → τ.corr.base = .B →
-    τ.mall.dissat = .none →
-    ∀ (stk alt : List Bytes) (ops : Nat) (c' : Core) (v : Bytes) (r : List Bytes), SigFree env stk →
-      frag env ke ctx ms ⟨stk, alt, ops⟩ = .ok c' → c'.stack = v :: r → castToBool v = true
+Nothing of the property's letters: `z o n u d f s` and the four base shapes are theorems above.
+Two hypotheses are stronger than the judge's setting and are stated where they are used:
+`OracleSane` (stack-wise `s`/`f`: script-generated values are not valid signatures) and, for `d`,
+the C01/C02/C07 side conditions (no raw pubkey hash, `LocksMet` for the computed witness). -/
 
 end MsVerif.C06
